@@ -82,6 +82,7 @@ type SpecFunc struct {
 // WritersSpec: only the listed functions (and package initialisation) may write the field or
 // let its address escape:  //@ writers C13 Search.timeLimit: (*Search).run, (*Search).setupSearchLimits
 type WritersSpec struct {
+	Readers bool // `readers` clause: only the listed functions may load the field (everybody else has to go through them)
 	Whole bool // only stores that replace the field as a whole count (stores into its components are covered by clauses of the component type)
 	Pkg    string
 	Props  []string
@@ -282,13 +283,13 @@ func (cs *ContractSet) parseFile(path string) {
 			sf.Body = mk(body)
 			cs.Specs[name] = sf
 			continue
-		case "writers":
+		case "writers", "readers":
 			wm := regexp.MustCompile(`^([\w,]+)\s+(\w+)\.(\w+)(\s+whole)?\s*:\s*(.*)$`).FindStringSubmatch(rest)
 			if wm == nil {
 				cs.errf("%s: bad writers clause %q (syntax: writers C13 Type.field: f1, f2)", loc, rest)
 				continue
 			}
-			ws := WritersSpec{Pkg: pkg, Props: strings.Split(wm[1], ","), Type: wm[2], Field: wm[3], Whole: wm[4] != "", Line: loc}
+			ws := WritersSpec{Pkg: pkg, Props: strings.Split(wm[1], ","), Type: wm[2], Field: wm[3], Whole: wm[4] != "", Readers: kw == "readers", Line: loc}
 			for _, f := range strings.Split(wm[5], ",") {
 				if f = strings.TrimSpace(f); f != "" {
 					ws.Funcs = append(ws.Funcs, f)
